@@ -1036,6 +1036,8 @@ pub fn try_unwrap_err(wd: &World, id: u32, pre: &PreUnwrap, c: &Cc<Node>) {
         let b = is_buffered(box_addr);
         if b.is_some() && pre.buffered.is_some() && b != pre.buffered {
             wd.err(prop, "try_unwrap_err_changed_state", "try_unwrap_err_changed_buffering".into(), format!("Cc::try_unwrap(Err) for #{} changed its buffer membership from {:?} to {:?}", id, pre.buffered, b));
+            // the same observation under C11: a refused try_unwrap is none of the events that move an object in or out
+            wd.err("C11", "buffered_set", "buffered_set_changed_by_refused_try_unwrap".into(), format!("#{} went from buffered={:?} to buffered={:?} across a try_unwrap that returned Err (not a clone, mark_alive, downgrade, upgrade, unwrap, free or collection)", id, pre.buffered, b));
         }
     }
 }
@@ -1152,14 +1154,15 @@ pub fn post_clean(wd: &World, oid: u32, idx: usize, pre: &PreClean) {
     let runs = a.runs;
     drop(m);
     if pre.runs >= 1 || pre.cleaner_gone {
-        // clean() after the action ran, or after the cleaner is gone, is a no-op for this action
+        // clean() after the action ran, or after the cleaner is gone, is a no-op: neither this action nor any other runs
         if runs != pre.runs {
             wd.err("C10", "clean_after_run", "clean_reran_action".into(), format!("clean() on action {} of #{} ran it again (it had already run / its cleaner was gone)", idx, oid));
+        } else if wd.stats.actions_run.get() != pre.total_runs {
+            wd.err("C10", "clean_after_run", "stale_clean_ran_another_action".into(), format!("clean() on action {} of #{}, which had already run (or whose cleaner was gone), ran {} other action(s)", idx, oid, wd.stats.actions_run.get() - pre.total_runs));
         }
     } else if !pre.nested_same_map && runs != 1 {
         wd.err("C10", "clean_did_not_run", format!("clean_did_not_run_action:{}", wd.stack_sig()), format!("the first clean() on action {} of #{} (cleaner alive) returned without running it (stack {})", idx, oid, wd.stack_sig()));
     }
-    let _ = pre.total_runs;
 }
 
 // ---------------------------------------------------------------------------------------------------------------
